@@ -213,6 +213,76 @@ def _return_ids(fn):
     return out
 
 
+def _bare_type(ty):
+    t = (ty or "").strip()
+    while t.startswith("const ") or t.startswith("volatile "):
+        t = t.split(" ", 1)[1].strip()
+    return t
+
+
+def aggregate_value(e, sk):
+    """values that travel as a small aggregate of pointers / integers (struct Run { first, last }; std::array<Run, 2>):
+    a braced initialiser of a plain struct of this translation unit is ("agg", member ids, values), one of an array (and of
+    std::array, whose only member is such an array) is ("seq", values); v.member of a local that holds an aggregate is its
+    component.  Anything else is left to the caller (NotImplemented)."""
+    k = e["k"]
+    if k == "InitListExpr" and kids(e) and all(x is not None for x in kids(e)) and sk.tu is not None:
+        ty = _bare_type(e.get("ty"))
+        if ty.endswith("]"):
+            return ("seq", tuple(sk.ev(x) for x in kids(e)))
+        if ty.startswith("std::array<") and len(kids(e)) == 1:
+            inner = strip_casts(kids(e)[0])
+            if inner is not None and inner["k"] == "InitListExpr" and _bare_type(inner.get("ty")).endswith("]"):
+                return sk.ev(inner)
+            return NotImplemented
+        rec = [r for r in sk.tu.records if r.get("full") == ty]
+        if len(rec) == 1 and not rec[0].get("bases") and len(rec[0].get("fields") or []) == len(kids(e)) and \
+                all(f_.get("mid") is not None for f_ in rec[0]["fields"]):
+            return ("agg", tuple(f_["mid"] for f_ in rec[0]["fields"]), tuple(sk.ev(x) for x in kids(e)))
+        return NotImplemented
+    if k == "MemberExpr" and kids(e) and not e.get("arrow") and e.get("mid") is not None and match.this_field(e) is None:
+        b_ = strip_casts(kids(e)[0])
+        while b_ is not None and b_["k"] == "ParenExpr" and kids(b_):
+            b_ = strip_casts(kids(b_)[0])
+        d_ = ref_of(b_)
+        if d_ is not None:
+            v_ = sk.load(sk.alias.get(d_, d_))
+            if isinstance(v_, tuple) and len(v_) == 3 and v_[0] == "agg" and e["mid"] in v_[1]:
+                return v_[2][v_[1].index(e["mid"])]
+    return NotImplemented
+
+
+class RangeSkel(skel.Skel):
+    """the skeleton, with `for (const X& x : range)` over a range whose value is a sequence (aggregate_value): the body is run
+    once per element with the loop variable holding that element.  The loop variable must be a copy or a const reference
+    (nothing is written back into the sequence); every other range-for stays 'cannot decide'."""
+
+    def stmt(self, s):
+        if s is None or s["k"] != "CXXForRangeStmt" or self.stop is not None or len(kids(s)) != 3:
+            return skel.Skel.stmt(self, s)
+        rng, var, body = kids(s)
+        ty = (var.get("ty") or "").strip() if var is not None and var["k"] == "VarDecl" else None
+        seq = self.ev(rng) if ty is not None and rng is not None else None
+        if not (isinstance(seq, tuple) and len(seq) == 2 and seq[0] == "seq") or var.get("did") is None or \
+                (ty.endswith("&") and not ty.startswith("const ")):
+            raise dtable.Undecidable("%s: CXXForRangeStmt in the skeleton at line %s" % (self.fn.full, s.get("l")))
+        n = 0
+        for v in seq[1]:
+            n += 1
+            if n > self.MAX_ITER:
+                ex = skel.TooLong("%s: loop at line %s does not end within %d rounds of the skeleton" % (self.fn.full, s.get("l"), self.MAX_ITER))
+                ex.loop = s
+                raise ex
+            self.alias.pop(var["did"], None)
+            self.env[var["did"]] = v
+            try:
+                self.stmt(body)
+            except skel._Break:
+                break
+            except skel._Continue:
+                pass
+
+
 def ring_event(on_make, on_gone, rk=None):
     """the event handler of an evaluation of ring-buffer code: element constructions (allocator construct / construct_at /
     placement new) and destructions are reported to on_make(address, value expressions, sk, node) / on_gone(address, sk, node);
@@ -234,6 +304,9 @@ def ring_event(on_make, on_gone, rk=None):
         if r is not NotImplemented:
             return r
         r = unsigned_arith(e, sk)
+        if r is not NotImplemented:
+            return r
+        r = aggregate_value(e, sk)
         if r is not NotImplemented:
             return r
         if e["k"] == "CXXNewExpr" and e.get("placement") == 1 and not e.get("array") and kids(e):
@@ -307,7 +380,7 @@ def ring_run(fn, b_, e_, m_, i_=None):
            ("field", "data_"): BASE, ("field", "max_size_"): m_}
     if fn.params and i_ is not None:
         env[fn.params[0]["did"]] = i_
-    sk = skel.Skel(fn, env, None, event, max_iter=64)
+    sk = RangeSkel(fn, env, None, event, max_iter=64)
     ret = None
     try:
         sk.run(kids(fn.body))
@@ -1255,7 +1328,7 @@ def copy_run(fn, S, T, choice):
         before = dict(env2)
         for p, a in zip(cal.params, actual):
             env2[p["did"]] = sk.ev(a)
-        sk2 = skel.Skel(cal, env2, None, event, mem_default=mem, max_iter=16, tu=sk.tu)
+        sk2 = RangeSkel(cal, env2, None, event, mem_default=mem, max_iter=16, tu=sk.tu)
         sk2.of_source = True
         sk2.depth = sk.depth + 1
         sk2.unknown_cond = sk.unknown_cond
@@ -1423,7 +1496,7 @@ def copy_run(fn, S, T, choice):
 
     def mem(a):
         return src_slot(a, None) if a >= SRC_BASE - 1000 else live.get(a)
-    sk = skel.Skel(fn, env, None, event, mem_default=mem, max_iter=16)
+    sk = RangeSkel(fn, env, None, event, mem_default=mem, max_iter=16)
 
     def cond(c, sk_):
         asked[0] += 1
@@ -1825,14 +1898,50 @@ def reached_in_switch(fn):
     return out
 
 
+def sv_entry(fs):
+    """of the instantiated functions of one name and mode, those the other members call: not called by one of the others
+    (a function that only forwards to an overload of the same name is the entry, the overload is followed from it)"""
+    called = {x["callee"].get("did") for f in fs for x in f.nodes() if "callee" in x}
+    return [f for f in fs if f.did not in called]
+
+
+def reached_closure(fn, tu):
+    """reached_in_switch(fn) together with the nodes reached in the members of the same class (same instantiation) it calls -
+    an overload selected by a tag argument, a private helper: -> (nodes, functions followed, python ids of the followed calls).
+    A call of anything else is left as it is: a node of unknown kind for the caller."""
+    nodes, fns, followed = [], [], set()
+    todo, seen = [fn], {fn.did}
+    while todo:
+        f = todo.pop(0)
+        fns.append(f)
+        r = reached_in_switch(f)
+        nodes.extend(r)
+        for x in r:
+            if "callee" in x and x["k"] in ("CallExpr", "CXXMemberCallExpr"):
+                cal = tu.by_did.get(x["callee"].get("did"))
+                if cal is not None and cal.body is not None and cal.kind == "method" and cal.record == fn.record and cal.rtargs == fn.rtargs:
+                    followed.add(id(x))
+                    if cal.did not in seen:
+                        seen.add(cal.did)
+                        todo.append(cal)
+    return nodes, fns, followed
+
+
 def check_sv_modes(ck, tu):
     for mode in ("Normal", "NoInitButDestroy", "NoInitNoDestroy"):
-        cr = [f for f in tu.find(name="create_array", record=SV) if sv_mode(f) == mode]
-        de = [f for f in tu.find(name="destroy_array", record=SV) if sv_mode(f) == mode]
+        # the function the other members call: overloads / helpers of the same name it forwards to (tag dispatch on the mode)
+        # are followed from it, see reached_closure
+        cr = sv_entry([f for f in tu.find(name="create_array", record=SV) if sv_mode(f) == mode])
+        de = sv_entry([f for f in tu.find(name="destroy_array", record=SV) if sv_mode(f) == mode])
         ck.require(len(cr) == 1 and len(de) == 1, "SimpleVector<%s>: create/destroy_array not instantiated" % mode)
         cr, de = cr[0], de[0]
+        ptr_size = len(de.params) == 2 and (de.params[0].get("ty") or "").rstrip().endswith("*") and \
+            not (de.params[1].get("ty") or "").rstrip().endswith(("*", "&"))
+        if not ptr_size:
+            raise dtable.Undecidable("%s: SimpleVector<%s>: destroy_array is not called with (block, size): not understood" % (de.loc, mode))
         alloc = set()
-        reached_cr = reached_in_switch(cr)
+        reached_cr, fns_cr, followed_cr = reached_closure(cr, tu)
+        reached_de, fns_de, _ = reached_closure(de, tu)
         for s in reached_cr:
             for x in [s]:
                 if x["k"] == "CXXNewExpr":
@@ -1841,7 +1950,7 @@ def check_sv_modes(ck, tu):
                     alloc.add("operator new")
         free = set()
         dtor_loop = False
-        for s in reached_in_switch(de):
+        for s in reached_de:
             for x in [s]:
                 if x["k"] == "CXXDeleteExpr":
                     free.add("delete[]" if x.get("array") else "delete")
@@ -1850,6 +1959,13 @@ def check_sv_modes(ck, tu):
         # which elements get their destructor run explicitly: destroy_array(array, n) evaluated for n = 0..3
         cover = []
         opaque = []            # calls of unknown kind that receive the block (they may run destructors)
+        def holds_block(y, sk):
+            """y names the block: the first parameter, or a variable whose value is an address in it"""
+            d_ = ref_of(unwrap(y)) if y is not None and y["k"] in ("DeclRefExpr", "ImplicitCastExpr") else None
+            if d_ is None:
+                return False
+            v_ = sk.load(sk.alias.get(d_, d_))
+            return d_ == de.params[0]["did"] or (isinstance(v_, int) and not isinstance(v_, bool) and BASE <= v_ <= BASE + 16)
         for n_ in range(4):
             hit = []
 
@@ -1880,7 +1996,13 @@ def check_sv_modes(ck, tu):
                     return None
                 if "callee" in e and e["callee"]["name"] not in ("operator delete", "operator delete[]", "free", "abort") + TRANSPARENT \
                         and e["k"] in ("CallExpr", "CXXMemberCallExpr", "CXXOperatorCallExpr"):
-                    if any(ref_of(unwrap(y)) == de.params[0]["did"] for a_ in kids(e) for y in ir.walk(a_)):
+                    if any(holds_block(y, sk) for a_ in kids(e) if a_ is not None for y in ir.walk(a_)):
+                        if e["k"] != "CXXOperatorCallExpr":
+                            # a function of the project whose body the skeleton enters (an overload chosen by a mode tag, a
+                            # helper): evaluated like the statements written here, its own calls are judged by this handler
+                            r_ = sk.inline(e, [a_ for a_ in kids(e) if a_ is not None and a_["k"] != "DefaultArg"])
+                            if r_ is not NotImplemented:
+                                return r_
                         opaque.append(e)
                 if e["k"] == "LambdaExpr":
                     opaque.append(e)
@@ -1922,8 +2044,8 @@ def check_sv_modes(ck, tu):
                                      % ((cr if not alloc else de).loc, mode, "allocated" if not alloc else "released"))
         if len(alloc) > 1 or len(free) > 1:
             # several kinds are reached together only if a branch could not be decided at compile time: which one runs in this mode?
-            for f_, kinds_ in ((cr, alloc), (de, free)):
-                open_branch = [y for y in f_.nodes() if y["k"] in ("IfStmt", "ConditionalOperator") and kids(y) and const_int(kids(y)[0]) is None]
+            for f_, kinds_, fns_ in ((cr, alloc, fns_cr), (de, free, fns_de)):
+                open_branch = [y for g_ in fns_ for y in g_.nodes() if y["k"] in ("IfStmt", "ConditionalOperator") and kids(y) and const_int(kids(y)[0]) is None]
                 if len(kinds_) > 1 and open_branch:
                     raise dtable.Undecidable("%s: SimpleVector<%s>: %s are all reached behind a branch that is not a compile-time constant: %s"
                                              % (f_.nloc(open_branch[0]), mode, sorted(kinds_), dtable.describe(kids(open_branch[0])[0])[:60]))
@@ -1939,7 +2061,8 @@ def check_sv_modes(ck, tu):
                          "mode %s %s run the element destructors explicitly" % (mode, "must" if want_loop else "must not"), de.loc)
             continue
         if mode == "Normal" and alloc != {"new[]"}:
-            helpers = [y for y in reached_cr if "callee" in y and y["k"] in ("CallExpr", "CXXMemberCallExpr") and y["callee"]["name"] not in ("operator new", "abort")]
+            helpers = [y for y in reached_cr if "callee" in y and y["k"] in ("CallExpr", "CXXMemberCallExpr") and y["callee"]["name"] not in ("operator new", "abort")
+                       and id(y) not in followed_cr]
             if helpers:
                 raise dtable.Undecidable("%s: default mode allocates raw memory and calls %s: whether that constructs the elements is not understood"
                                          % (cr.nloc(helpers[0]), helpers[0]["callee"]["name"]))
@@ -2327,7 +2450,8 @@ def run(ck):
         "are followed); a copy is evaluated for sources of 0..3 elements at every cursor position of small blocks (wrapped live "
         "ranges included) and must leave rb[0..n) in its live range with the old elements destroyed; the capacity a function "
         "computes is evaluated against the max_size it stores. SimpleVector: the instantiated "
-        "switch(Mode) tables of create_array/destroy_array must pair, array_ must never be overwritten while owning, resize must "
+        "switch(Mode) tables of create_array/destroy_array (overloads selected by a mode tag and helpers of the class are followed) "
+        "must pair, array_ must never be overwritten while owning, resize must "
         "destroy the old block with the old size. Histories (deque equivalence) are not decided. A member that is not written in "
         "the usual statement shapes is evaluated instead (every cursor position of buffers with mask 1..15, old/new sizes 0..3, "
         "sources of 0..3 elements); a violation is reported only with such a counterexample, a CFG path, or a complete effect list "
